@@ -202,6 +202,7 @@ type GenOpts struct {
 	Refine    bool
 	NoSet     bool
 	Collide   bool // collision-biased numbers
+	Long      int  // > 0: a third of the strings are long twins of that many bytes, identical except at one position
 	Fam       int  // > 0: half of the strings and numbers come from one family of truly hash-colliding values (collisions.go)
 	MarkDense bool // every second node marked instead of every sixth
 	MaxLen    int
@@ -453,6 +454,16 @@ var strPool = []string{
 	strings.Repeat("long-\u00e9-", 6), strings.Repeat("xy\u0301z ", 60),
 }
 
+// longTwin: strings of n bytes that are identical except for one letter at one of five positions (first, a
+// quarter in, middle, three quarters in, last) - whatever samples, truncates or summarises long strings must
+// still tell them apart.
+func longTwin(n, where, letter int) string {
+	b := []byte(strings.Repeat("lorem ipsum ", n/12+1))[:n]
+	pos := []int{0, n / 4, n / 2, 3 * n / 4, n - 1}[where%5]
+	b[pos] = "XYZ"[letter%3]
+	return string(b)
+}
+
 func genStr(c *Ctx) string { return strPool[c.G(len(strPool))] }
 
 func nfc(s string) string { return norm.NFC.String(s) }
@@ -585,6 +596,8 @@ func genValue(c *Ctx, t *TDesc, depth int, o GenOpts) *VDesc {
 	case KString:
 		if fam := familyStrings(o.Fam); fam != nil && c.G(2) == 0 {
 			v.S = fam[c.G(len(fam))]
+		} else if o.Long > 0 && c.G(3) == 0 {
+			v.S = longTwin(o.Long, c.G(5), c.G(3))
 		} else {
 			v.S = genStr(c)
 		}
